@@ -207,6 +207,15 @@ def gen_cases(rng, tier):
         elif r < 0.6:
             p = problems.gen_problem(rng, with_objectives=True, allow_custom=True, custom_kinds=problems.SOUND_CUSTOM)
             entry = "optimize"
+            if rng.random() < 0.5:
+                # the raw input is NOT compatible with a hard restriction (construction repairs it): no
+                # abort may bring the raw input back
+                n = len(p["seq"])
+                a = rng.randint(0, n - 6)
+                w = "".join(rng.choice("ACGT") for _ in range(6))
+                extra = rng.choice([("EnforceSequence", problems.kw(location=(a, a + 6, 1), sequence=w)),
+                                    ("EnforceChoice", problems.kw(location=(a, a + 6, 1), choices=(w, w[::-1])))])
+                p["constraints"] = tuple(c for c in p["constraints"] if c[0] not in ("EnforceTranslation", "AvoidChanges", "EnforceChoice", "EnforceSequence")) + (extra,)
         else:
             # direct searches on the problem itself: small mutation spaces only
             p = c06.gen_small(rng)
